@@ -18,6 +18,7 @@ _FAILING_DOC = [['enum', 'Early', ['E']], ['ns', ['Zq'], [['ns', ['Zr', 'Zs'], [
     ['enum', 'Fine', ['F']], ['junk', {'<class>': 'component', 'name': D.sn(['Broken'])}]]]]]]
 _FAILING_DOC2 = [['ns', ['Zq'], [['ns', ['Zr'], [['junk', {'<class>': 'enum', 'name': D.sn(['Not-An-Identifier']), 'fields': []}]]]]]]
 _REUSE = {}
+_USER_CLASSES = {}
 EXTRA_FORMS = set()       # checks that want every build() repeated on a model from a re-used parser add 'reused-parser'
 
 
@@ -63,6 +64,15 @@ class StrSub(str):
 
 def mk_select(sel, form=None):
     from dznpy.adv_shell import PortSelect, PortWildcard  # pylint: disable=import-outside-toplevel
+    if form == 'selsubclass':
+        # EXTENSION: the selections are instances of a user's own (empty) subclass of PortSelect
+        if 'UserSelect' not in _USER_CLASSES:
+            class UserSelect(PortSelect):          # ONE user class (instances of it compare like the base class does)
+                def describe(self):
+                    return f'user selection {self.value}'
+            _USER_CLASSES['UserSelect'] = UserSelect
+        cls = _USER_CLASSES['UserSelect']
+        return cls(PortWildcard[sel]) if isinstance(sel, str) else cls(set(sel))
     if isinstance(sel, str):
         return PortSelect(PortWildcard[sel])
     if form == 'subclass':
@@ -100,6 +110,20 @@ def _origin(cfg, origin_enum):
             'RAW:other-enum-create': OtherOrigin.CREATE, 'RAW:other-enum-import': OtherOrigin.IMPORT}[fac]
 
 
+def _enc_name(model, cfg):
+    from dznpy.scoping import NamespaceIds, ns_ids_t  # pylint: disable=import-outside-toplevel
+    ids = ns_ids_t(list(model['encapsulee']))
+    if cfg.get('enc_form') == 'subclass':
+        # EXTENSION: the name as an instance of a user's own (empty) subclass of NamespaceIds
+        if 'UserIds' not in _USER_CLASSES:
+            class UserIds(NamespaceIds):
+                def tag(self):
+                    return 'user'
+            _USER_CLASSES['UserIds'] = UserIds
+        return _USER_CLASSES['UserIds'](list(ids.items))
+    return ids
+
+
 def mk_configuration(model, cfg, fct=None, ports_cfg=None):
     from dznpy.adv_shell import Configuration  # pylint: disable=import-outside-toplevel
     from dznpy.adv_shell.common import FacilitiesOrigin  # pylint: disable=import-outside-toplevel
@@ -108,7 +132,7 @@ def mk_configuration(model, cfg, fct=None, ports_cfg=None):
     prefix = ns_ids_t(cfg['prefix']) if cfg.get('prefix') else None
     return Configuration(dezyne_filename=model['file'], ast_fc=fct,
                          output_basename_suffix=cfg.get('suffix', 'Shell'),
-                         fqn_encapsulee_name=ns_ids_t(list(model['encapsulee'])),
+                         fqn_encapsulee_name=_enc_name(model, cfg),
                          ports_cfg=ports_cfg if ports_cfg is not None else mk_ports_cfg(cfg),
                          facilities_origin=_origin(cfg, FacilitiesOrigin),
                          copyright=cfg.get('copyright', '(c)'),
